@@ -1,7 +1,7 @@
 (* C04 -- redirections connect exactly the named descriptors to the named files. *)
 From Coq Require Import List Arith Bool Lia.
 From Cicada Require Import Base.Chars Model.Redirs Proofs.RedirsProofs.
-From Cicada Require Import Model.OsLite Model.Pipeline Proofs.OsLiteProofs Proofs.PipelineProofs Proofs.ChildProofs.
+From Cicada Require Import Model.OsLite Model.Pipeline Proofs.OsLiteProofs Proofs.PipelineProofs Proofs.ChildProofs Proofs.BuiltinProofs.
 Import ListNotations.
 
 Definition nf (_ : nat) := false.
@@ -115,6 +115,24 @@ Proof.
   vm_compute in H. discriminate.
 Qed.
 
+(* PROPOSED notes/C04-fix-3.patch: with _get_std_fds as a left-to-right fold, every print of a builtin that is
+   alone on its line lands where the POSIX fold of ITS WHOLE redirection list says -- no list excluded -- and the
+   command fails (nothing printed) exactly when a file target cannot be opened *)
+Definition v_fix3 := mkv true true true true true true false.
+Theorem C04_builtin_sinks_fix3 : forall fail_at openable pl sh st o1 c1 o2 c2,
+  p_stages pl = [st] -> s_kind st = KBuiltin -> p_capture pl = false ->
+  lookup (tab sh) 1 = Some (o1, c1) -> lookup (tab sh) 2 = Some (o2, c2) ->
+  let r := run_pipeline v_fix3 fail_at openable pl sh in
+  let sk := posix_sinks (s_redirs st) (o1, o2) in
+  (res_error r = false ->
+   res_sinks r = map (fun is_out : bool => Some (if is_out then fst sk else snd sk)) (s_prints st)) /\
+  (res_error r = true <-> allopen openable (s_redirs st) = false).
+Proof. intros. eapply builtin_sinks_fold; eauto. Qed.
+Example C04_builtin_fix3_witnesses :
+  res_sinks (run_pipeline v_fix3 nf yes (mkplan [mks FNone [mkr F2 false TAmp1] KBuiltin [false]] false) sh0) = [Some (OInh 1)] /\
+  res_sinks (run_pipeline v_fix3 nf yes (mkplan [mks FNone [mkr F2 false (TFile 5); mkr F1 false TAmp2] KBuiltin [true]] false) sh0) = [Some (OFile 5 MTrunc)].
+Proof. vm_compute. split; reflexivity. Qed.
+
 (* only the redirected command is affected: the shell's own table is what it was *)
 Theorem C04_shell_unaffected : forall v openable pl sh,
   is_single_builtin pl = false ->
@@ -135,5 +153,6 @@ Print Assumptions C04_parse.
 Print Assumptions C04_parse_from.
 Print Assumptions C04_sinks.
 Print Assumptions C04_unopenable.
+Print Assumptions C04_builtin_sinks_fix3.
 Print Assumptions C04_shell_unaffected.
 Print Assumptions C04_refuted.
